@@ -16,8 +16,8 @@ PROPERTY = "C09"
 LEVEL = "model_checking"
 
 INIT = [("x", (2,), 0, False)]
-CFG_Q = dict(ops2=("mul",), iops=("iadd",), set_idx=(), clears=("backward",), max_live=4)
-CFG_T = dict(ops2=("mul", "add"), iops=("iadd", "imul"), set_idx=("i0",), clears=("backward", "clear"), max_live=4)
+CFG_Q = dict(ops2=("mul",), iops=("iadd",), set_idx=(), clears=("backward",), max_live=4, peek=True)
+CFG_T = dict(ops2=("mul", "add"), iops=("iadd", "imul"), set_idx=("i0",), clears=("backward", "clear"), max_live=4, peek=True)
 BOUNDS = {"quick": (CFG_Q, 5), "thorough": (CFG_T, 5)}
 
 
@@ -37,6 +37,9 @@ def enabled(m, cfg, out):
     for t in live:
         for c in cfg["clears"]:
             sts.append((c, t))
+    if cfg.get("peek"):
+        for t in live:
+            sts.append(("peek", t))
     return sts
 
 
@@ -185,7 +188,7 @@ def plan(tier, seed):
         "non-trivial = history with a clear event and an in-place update",
         bounds={"depth": depth, "max_live": cfg["max_live"], "alphabet": {k: v for k, v in cfg.items()}},
         assumptions=[
-            "one leaf x:(2,), no views (across graph epochs a cleared view's relation to its base is not defined by the property)",
+            "one leaf x:(2,), no held views, only transient ones `x[:1]` (across graph epochs a cleared view's relation to its base is not defined by the property)",
             "which tensors a clear event turns into leaves is read off the implementation's own graph (creator.variables walk)",
             "reference = complex-step derivative with detach at clear events; tolerance 1e-9",
         ],
